@@ -1,8 +1,43 @@
+"""C13 registration + a source tie: how dfir_lang's `join` / `join_multiset` operators drive the join."""
+import os, re
+
+
+def translate(ctx):
+    """The harness (and the multi-tick theorems) drive `symmetric_hash_join` the way the generated operator code
+    does; re-read that from the code generator on every run.  A fragment that no longer has this shape is a broken tie."""
+    ops = os.path.join(ctx["repo"], "dfir_lang/src/graph/ops")
+    res = []
+    try:
+        src = re.sub(r"//[^\n]*", "", open(os.path.join(ops, "join.rs")).read())
+        flat = re.sub(r"\s+", " ", src)
+        call = re.search(r"pull::symmetric_hash_join\(\s*([^;]*?)\)\s*\.await", flat)
+        args = [a.strip() for a in call.group(1).rstrip(", ").split(",")] if call else []
+        ok_call = (len(args) == 5 and args[0].endswith("Pull::fuse(lhs)") and args[1].endswith("Pull::fuse(rhs)")
+                   and args[2:] == ["lhs_state", "rhs_state", "is_new_tick"])
+        res.append(("join.rs symmetric_hash_join(fuse(lhs), fuse(rhs), lhs_state, rhs_state, is_new_tick)", ok_call,
+                    "fused inputs, flag forwarded" if ok_call else f"call shape changed: {args}"))
+        m = re.search(r"check_inputs\(\s*#lhs\s*,\s*#rhs\s*,\s*&mut #lhs_joindata_ident\s*,\s*&mut #rhs_joindata_ident\s*,\s*(\w+)\s*\)", flat)
+        ok_flag = bool(m) and m.group(1) == "true"
+        res.append(("join.rs is_new_tick argument", ok_flag,
+                    "always `true`: every tick takes the drain-then-enumerate path" if ok_flag else "flag is no longer the literal `true`"))
+        ok_clear = bool(re.search(r"Persistence::Tick\s*=>\s*quote_spanned!\s*\{\s*op_span\s*=>\s*\(#work_fn\)\(\|\|\s*#root::dfir_pipes::pull::HalfJoinState::clear\(&mut #joindata_ident\)\)", flat))
+        res.append(("join.rs 'tick persistence = HalfJoinState::clear at tick end", ok_clear,
+                    "clear() per side" if ok_clear else "tick reset changed"))
+        ms = re.sub(r"\s+", " ", open(os.path.join(ops, "join_multiset.rs")).read())
+        ok_ms = "pull::HalfMultisetJoinState" in ms and "(super::join::JOIN.write_fn)(&wc, diagnostics)" in ms
+        res.append(("join_multiset.rs = join with HalfMultisetJoinState", ok_ms,
+                    "delegates to JOIN.write_fn" if ok_ms else "no longer delegates to join"))
+    except Exception as ex:
+        res.append(("join.rs / join_multiset.rs operator wiring", False, repr(ex)))
+    return res
+
+
 SPEC = dict(
     id="C13",
     lean_project="HvPull", props_module="HvPull.Props.C13", driver="hvdrv_pull",
     harness="hv_pull", bin="hv_pull", mode="c13",
     cases={"quick": 2000, "thorough": 30000},
+    translate=translate,
     level="proof",
     design_ref="DESIGN.md §5 C13",
     technique="Lean 4 invariant proof (emitted + join(old tables) = queued + join(final tables), by multiplicities) + poll-by-poll differential correspondence with the real join",
@@ -22,6 +57,8 @@ SPEC = dict(
                 "of ticks, any mix of 'static / 'tick persistence: each tick's output is the join of what its sides hold); join_final_state + join_persisted_then_new: over any number of ticks on persisted state, emitted + join(initial tables) = join(tables holding all arrivals of all ticks). "
                 "Tie: the harness drives the real symmetric_hash_join exactly as dfir_lang's join/join_multiset operators "
                 "do (fuse, is_new_tick flag, clear() per persistence) over multi-tick histories with scripted pulls, "
+                "(that wiring — fused inputs, the literal `true` flag, clear() for 'tick sides, join_multiset = join with the multiset "
+                "state — is re-read from dfir_lang/src/graph/ops/join.rs and join_multiset.rs on every run), "
                 "keys {0,1}, values {0,1,2}; every poll answer, len() and table dump is diffed against the compiled model (the new-tick "
                 "enumeration as a sorted multiset, produced in the model by the transcribed NewTickJoinIter machine); nested-loop "
                 "relational-join oracles are evaluated on the real code: per new tick (output = join of everything held), per "
